@@ -106,6 +106,34 @@ def romberg(S, n, grouping, slice_version, container_version, force_balanced, sy
             S.prove(S.eq(sum(wi * x ** k for wi, x in zip(w, gx)), _moment(b, a, k)), 'romberg:complete-tree-exact-to-degree-2m+1')
 
 
+def wrapper_cache(S, n):
+    """The global wrappers keep a weight cache (default do_cache=True) on one object that serves every dimension and every later
+    set_grid: dimensions with the same level sequence but different edge lengths, and a later grid on another interval."""
+    from sparseSpACE import Grid as G
+    a, h = _interval(S, True)
+    lv = lib.tree_levels(S, 'tree', n)
+    lv2 = lib.tree_levels(S, 'tree2', n)
+    for cls, tag in ((G.GlobalRombergGrid, 'romberg'),):
+        edges = [(a, a + h), (a, a + 2 * h), (a + h, a + 2 * h)]
+        g = cls([e[0] for e in edges], [e[1] for e in edges], boundary=True)
+        for rnd, (trees, scale) in enumerate((([lv, lv, lv2], 1), ([lv2, lv, lv], 3))):
+            ed = [(lo, lo + (hi - lo) * scale) for lo, hi in edges]
+            coords = [list(lib.dyadic_coords(t, lo, hi)) for t, (lo, hi) in zip(trees, ed)]
+            g.set_grid(coords, [list(t) for t in trees])
+            for d, (lo, hi) in enumerate(ed):
+                w = list(g.weights[d])
+                S.prove(len(w) == n, 'wrapper-cache:one-weight-per-point')
+                S.prove(S.eq(sum(w), hi - lo), 'wrapper-cache:%s-weights-sum-to-the-edge-length-in-every-dimension-and-round' % tag)
+                S.prove(S.eq(sum(wi * x for wi, x in zip(w, coords[d])), _moment(hi, lo, 1)), 'wrapper-cache:%s-linear-functions-exact-in-every-dimension-and-round' % tag)
+
+
+def _is_complete_balanced(lv):
+    """Balanced extrapolation needs a tree in which every inner node has zero or two children."""
+    lv = [int(l) for l in lv]
+    xs = lib.dyadic_coords(lv, 0.0, 1.0)
+    return _children_ok(xs, lv)
+
+
 def _k(x):
     if is_sym(x):
         return ('s', frozenset(core.SymNum.coerce(x).terms.items()))
@@ -206,6 +234,8 @@ def jobs(tier):
     for n in range(3, hi + 1):
         js.append(Job('romberg-wrapper[n=%d]' % n, romberg, {'n': n, 'grouping': 'UNIT', 'slice_version': 'ROMBERG_DEFAULT', 'container_version': 'ROMBERG_DEFAULT',
                                                              'force_balanced': False, 'sym_interval': True, 'wrapper': True}, validate=(7 if q else 3)))
+    for n in (3, 4, 5) if q else (3, 4, 5, 6, 7):
+        js.append(Job('wrapper-cache[n=%d]' % n, wrapper_cache, {'n': n}, validate=(7 if q else 3), budget_s=(600 if q else 3000)))
     for n in (3, 5, 7, 9) if q else (3, 5, 7, 9, 11, 13, 17):
         js.append(Job('balanced[n=%d]' % n, balanced, {'n': n, 'sym_interval': True}, validate=(5 if q else 2), budget_s=(600 if q else 3000)))
         js.append(Job('balanced-wrapper[n=%d]' % n, balanced, {'n': n, 'sym_interval': True, 'wrapper': True}, validate=(5 if q else 2), budget_s=(600 if q else 3000)))
